@@ -79,3 +79,238 @@ def select(prop, tier, seed, qs):
 def generated_files(qs):
     """Files generated into the shadow (harness instantiations); {rel path: text}."""
     return {}
+
+
+# ------------------------------------------------------------------------------------
+# C08 / C09 / C17 (position arrays)
+# ------------------------------------------------------------------------------------
+PA_SRC = "ffuzzy/src/internals/compare/position_array.rs"
+
+
+def pa_rules(n_ed=None, n_cs=None, n_init=None):
+    r = []
+    if n_ed is not None:
+        r.append((r"edit_distance_internal", n_ed))
+    if n_cs is not None:
+        r.append((r"has_common_substring_internal", n_cs))
+    if n_init is not None:
+        r.append((r"init_from_partial", n_init))
+        r.append((r"is_equiv_internal|Iterator>::all::<.closure@" + PA_SRC, n_init))
+        r.append((r"Iterator>::all::<.closure@.*enumerate|Enumerate<.*all", n_init))
+    return r
+
+
+ASSUME_SYM = "block-hash symbols < 64 (documented range; 0x40 is the parser's sentinel)"
+ASSUME_MASKS = ("position arrays consumed by the function under test are the reference masks of the string "
+                "(spec_masks); c17_pa_init_* proves the real constructor produces exactly those")
+
+PROP_META["C08"] = {
+    "technique": "Kani/CBMC BMC of edit_distance_internal against a textbook LCS DP on symbolic strings "
+                 "(bounded length) + SMT (z3, cvc5) inductive step of the bit-parallel recurrence extracted "
+                 "from the MIR at the full 64-bit width",
+    "assumptions": ["reference model: row DP for LCS (harness/spec/lcs.rs)"],
+}
+for (L, alpha, tiers, cap, cost) in [(4, 64, ("quick", "thorough"), (420, 900), 120),
+                                     (5, 64, ("thorough",), (0, 1500), 300),
+                                     (6, 64, ("thorough",), (0, 2400), 500),
+                                     (8, 4, ("thorough",), (0, 2400), 500)]:
+    K("c08_ed_l%d_a%d" % (L, alpha), "C08", M_PA, cfg="release", tiers=tiers,
+      unwindset=pa_rules(n_ed=L + 1), cap=cap, cost=cost, mem=10,
+      shape="BMC", bound="both strings <= %d symbols over %d symbols; both argument orders" % (L, alpha),
+      outside="longer strings (covered by the inductive 64-bit step, not by this query)",
+      enc=["BlockHashPositionArrayImplInternal::edit_distance_internal"],
+      assumptions=[ASSUME_SYM, ASSUME_MASKS, "debug assertions off (is_valid() debug_assert not compiled)"])
+K("c08_ed_long_a_short_b", "C08", M_PA, cfg="release", tiers=("thorough",),
+  unwindset=pa_rules(n_ed=4), cap=(0, 1800), cost=400, mem=10,
+  shape="BMC", bound="|a| in {63,64} over 4 symbols, |b| <= 3 (carry chains through the top bits)",
+  enc=["BlockHashPositionArrayImplInternal::edit_distance_internal"], assumptions=[ASSUME_SYM, ASSUME_MASKS])
+K("c08_checked_wrapper", "C08", M_PA, cfg="release", cap=(420, 900), cost=100, mem=10,
+  shape="BMC", bound="lengths (2,2) concrete, contents symbolic; real init_from + is_valid",
+  enc=["BlockHashPositionArrayImpl::edit_distance", "BlockHashPositionArray::init_from",
+       "BlockHashPositionArrayData::is_valid"], assumptions=[ASSUME_SYM])
+
+PROP_META["C09"] = {
+    "technique": "Kani/CBMC BMC of has_common_substring_internal against 'exists a shared 7-gram' on symbolic "
+                 "strings / arbitrary masks (small scope: bounded lengths, small alphabets for the longer ones)",
+    "assumptions": ["small-alphabet argument (DESIGN.md C09): the scan touches symbols only through rep[sym]"],
+}
+for (LA, LB, alpha, tiers, cap, cost) in [(10, 9, 64, ("quick", "thorough"), (420, 1200), 120),
+                                          (12, 12, 4, ("quick", "thorough"), (420, 1200), 100),
+                                          (16, 12, 4, ("thorough",), (0, 1800), 300),
+                                          (16, 16, 2, ("thorough",), (0, 1800), 300),
+                                          (64, 16, 4, ("thorough",), (0, 2400), 600)]:
+    K("c09_cs_a%d_b%d_s%d" % (LA, LB, alpha), "C09", M_PA, cfg="release", tiers=tiers,
+      unwindset=pa_rules(n_cs=LB), cap=cap, cost=cost, mem=10,
+      shape="BMC", bound="|a| <= %d, |b| <= %d over %d symbols" % (LA, LB, alpha),
+      outside="|b| > %d" % LB, enc=["BlockHashPositionArrayImplInternal::has_common_substring_internal"],
+      assumptions=[ASSUME_SYM, ASSUME_MASKS])
+K("c09_masks_b12_s4_len16", "C09", M_PA, cfg="release", unwindset=pa_rules(n_cs=12),
+  cap=(420, 1200), cost=60, shape="BMC",
+  bound="arbitrary masks for 4 symbols without bits >= len <= 16, |b| <= 12",
+  enc=["BlockHashPositionArrayImplInternal::has_common_substring_internal"],
+  assumptions=["no mask bits at positions >= len"])
+K("c09_masks_b16_s4_len64", "C09", M_PA, cfg="release", tiers=("thorough",),
+  unwindset=pa_rules(n_cs=16), cap=(0, 2400), cost=600, shape="BMC",
+  bound="arbitrary masks for 4 symbols, len <= 64, |b| <= 16",
+  enc=["BlockHashPositionArrayImplInternal::has_common_substring_internal"],
+  assumptions=["no mask bits at positions >= len"])
+K("c09_checked_wrapper", "C09", M_PA, cfg="release", cap=(420, 900), cost=100, mem=10,
+  shape="BMC", bound="lengths (8,8) concrete, contents symbolic; real init_from + is_valid",
+  enc=["BlockHashPositionArrayImpl::has_common_substring", "BlockHashPositionArray::init_from"],
+  assumptions=[ASSUME_SYM])
+
+
+# ------------------------------------------------------------------------------------
+# kernels in hash/algorithms.rs: C06 (normalize, verify), C04 (parser kernels), C05 (base64)
+# ------------------------------------------------------------------------------------
+ALG_SRC = "ffuzzy/src/internals/hash/algorithms.rs"
+
+
+def alg_rules(n_norm=None, n_verify=None, n_text=None, n_insert=None):
+    r = []
+    if n_norm is not None:
+        r.append((r"normalize_block_hash_in_place_internal", n_norm))
+    if n_verify is not None:
+        r.append((r"verify_block_hash_internal", n_verify))
+        r.append((r"Iterator>::any::<.closure@" + ALG_SRC, n_verify))
+    if n_text is not None:
+        r.append((r"parse_block_hash_from_bytes|parse_block_size_from_bytes", n_text))
+    if n_insert is not None:
+        r.append((r"insert_block_hash_into_bytes", n_insert))
+    return r
+
+
+PROP_META["C06"] = {
+    "technique": "Kani/CBMC BMC of the normalization kernels (<32> and <64> instantiations) against a "
+                 "local-criterion model on symbolic block hashes (family A: unrestricted content up to a length "
+                 "bound; family B: full capacity with one planted run of symbolic position and length), plus "
+                 "route equivalence on symbolic hash objects",
+    "assumptions": ["reference model spec_norm: symbol i is dropped iff its three predecessors equal it"],
+}
+for (N, B, tiers, cap, cost) in [(32, 16, ("quick",), (420, 0), 60), (32, 32, ("thorough",), (0, 1500), 300),
+                                 (64, 16, ("quick",), (420, 0), 60), (64, 32, ("thorough",), (0, 1800), 500)]:
+    K("c06_norm%d_b%d" % (N, B), "C06", M_ALG, cfg="release", tiers=tiers, cap=cap, cost=cost,
+      unwindset=alg_rules(n_norm=B + 1), shape="BMC",
+      bound="normalize kernel ::<%d>, every content of raw length <= %d over 64 symbols" % (N, B),
+      outside="raw length > %d with three or more long runs" % B,
+      enc=["normalize_block_hash_in_place_internal::<%d>" % N], assumptions=[ASSUME_SYM])
+# ladder for ::<64> at larger bounds (thorough): 64 -> 48
+K("c06_norm64_b64", "C06", M_ALG, cfg="release", tiers=("thorough",), cap=(0, 2400), cost=2400, mem=14,
+  unwindset=alg_rules(n_norm=65), ladder="c06_norm64_big", rung=64, shape="BMC",
+  bound="normalize kernel ::<64>, every content of raw length <= 64 (full capacity)",
+  enc=["normalize_block_hash_in_place_internal::<64>"], assumptions=[ASSUME_SYM])
+K("c06_norm64_b48", "C06", M_ALG, cfg="release", tiers=("thorough",), cap=(0, 2400), cost=1500, mem=14,
+  unwindset=alg_rules(n_norm=49), ladder="c06_norm64_big", rung=48, shape="BMC",
+  bound="normalize kernel ::<64>, every content of raw length <= 48",
+  enc=["normalize_block_hash_in_place_internal::<64>"], assumptions=[ASSUME_SYM])
+for N in (32, 64):
+    K("c06_norm%d_planted" % N, "C06", M_ALG, cfg="release", tiers=("quick", "thorough") if N == 32 else ("thorough",),
+      cap=(420, 2400), cost=200, unwindset=alg_rules(n_norm=N + 1), shape="BMC",
+      bound="normalize kernel ::<%d> at full capacity: one run of symbolic length 1..=%d at a symbolic position, "
+            "run-free neighbours" % (N, N),
+      enc=["normalize_block_hash_in_place_internal::<%d>" % N], assumptions=[ASSUME_SYM])
+K("c06_norm_noop", "C06", M_ALG, cfg="release", cap=(300, 600), cost=20, shape="BMC",
+  bound="arbitrary 64-byte array and length (originally_normalized = true is the identity)",
+  enc=["normalize_block_hash_in_place_internal::<64>", "normalize_block_hash_in_place::<64,true>"])
+K("c06_verify32_b32", "C06", M_ALG, cfg="release", cap=(420, 900), cost=70, unwindset=alg_rules(n_verify=34),
+  shape="BMC", bound="verify kernel ::<32>, arbitrary bytes, length <= 32, all flag combinations",
+  enc=["verify_block_hash_internal::<32>"],
+  assumptions=["symbols < 64 assumed only for (verify_normalization && !verify_data_range_in)"])
+K("c06_verify64_b64", "C06", M_ALG, cfg="release", tiers=("thorough",), cap=(0, 1800), cost=300,
+  unwindset=alg_rules(n_verify=66), shape="BMC",
+  bound="verify kernel ::<64>, arbitrary bytes, length <= 64, all flag combinations",
+  enc=["verify_block_hash_internal::<64>"])
+K("c06_verify64_b16", "C06", M_ALG, cfg="release", tiers=("quick",), cap=(420, 0), cost=60,
+  unwindset=alg_rules(n_verify=18), shape="BMC",
+  bound="verify kernel ::<64>, arbitrary bytes, length <= 16, all flag combinations",
+  enc=["verify_block_hash_internal::<64>"])
+K("c06_verify_wrappers", "C06", M_ALG, cfg="release", cap=(420, 900), cost=60, unwindset=alg_rules(n_verify=6),
+  shape="BMC", bound="wrapper flag wiring, length <= 4",
+  enc=["verify_block_hash_input", "verify_block_hash_current"])
+for (S, m, tiers, cap, cost) in [("short", 8, ("quick", "thorough"), (480, 1200), 200),
+                                 ("long", 8, ("thorough",), (0, 1200), 200),
+                                 ("short", 12, ("thorough",), (0, 2400), 600),
+                                 ("long", 12, ("thorough",), (0, 2400), 600)]:
+    K("c06_routes_%s_m%d" % (S, m), "C06", M_HASH, cfg="release", tiers=tiers, cap=cap, cost=cost, mem=12,
+      unwindset=alg_rules(n_norm=m + 1, n_verify=m + 8), shape="BMC",
+      bound="all routes on %s hash objects, block hashes <= %d symbols" % (S, m),
+      outside="object-level wrappers with longer block hashes (they only forward to the kernels)",
+      enc=["FuzzyHashData::normalize", "normalize_in_place", "clone_normalized", "from_raw_form", "From<raw>",
+           "is_normalized", "to_raw_form", "from_normalized", "into_mut_raw_form", "is_valid"],
+      assumptions=[ASSUME_SYM, "source object valid (spec_valid)"])
+
+PROP_META["C05"] = {
+    "technique": "Kani/CBMC BMC of store_into_bytes / len_in_str / to_string / Display on symbolic valid objects "
+                 "against an independent text model, symbolic buffer length and contents",
+    "assumptions": ["reference model spec_text (decimal of 3<<n, RFC 4648 alphabet)"],
+}
+K("c05_base64_tables", "C05", M_ALG, shape="full domain", bound="none: all 256 bytes / all 64 symbols",
+  enc=["base64::base64_index", "BASE64_TABLE_U8", "BASE64_REV_TABLE_U8"], cap=(120, 300), cost=5)
+K("c05_insert_block_hash_b16", "C05", M_ALG, cfg="release", tiers=("quick",), cap=(420, 0), cost=60,
+  unwindset=alg_rules(n_insert=18), shape="BMC", bound="block hash <= 16 symbols into a 72-byte buffer",
+  enc=["insert_block_hash_into_bytes::<64>"], assumptions=[ASSUME_SYM])
+K("c05_insert_block_hash_b64", "C05", M_ALG, cfg="release", tiers=("thorough",), cap=(0, 1200), cost=200,
+  unwindset=alg_rules(n_insert=66), shape="BMC", bound="block hash <= 64 symbols (full) into a 72-byte buffer",
+  enc=["insert_block_hash_into_bytes::<64>"], assumptions=[ASSUME_SYM])
+for (nm, tiers, cap, cost, m) in [("c05_store_short_raw_m8", ("quick", "thorough"), (480, 1200), 200, 8),
+                                  ("c05_store_long_norm_m8", ("quick", "thorough"), (480, 1200), 200, 8),
+                                  ("c05_store_short_raw_full", ("thorough",), (0, 2400), 900, 64),
+                                  ("c05_store_long_raw_full", ("thorough",), (0, 2400), 900, 64),
+                                  ("c05_store_long_norm_full", ("thorough",), (0, 2400), 900, 64)]:
+    K(nm, "C05", M_HASH, cfg="release", tiers=tiers, cap=cap, cost=cost, mem=12,
+      unwindset=alg_rules(n_insert=m + 2), shape="BMC",
+      bound="store_into_bytes: block hashes <= %d symbols, buffer of every length 0..=text+8" % m,
+      enc=["FuzzyHashData::store_into_bytes", "len_in_str", "MAX_LEN_IN_STR", "insert_block_hash_into_bytes"],
+      assumptions=[ASSUME_SYM, "object valid (spec_valid)"])
+for nm in ("c05_alloc_forms_short_raw_m4", "c05_alloc_forms_long_norm_m4"):
+    K(nm, "C05", M_HASH, cfg="release", tiers=("thorough",), cap=(0, 2400), cost=900, mem=12,
+      unwindset=alg_rules(n_insert=6), shape="BMC",
+      bound="to_string / String::from / Display: block hashes <= 4 symbols",
+      outside="allocating paths with longer block hashes",
+      enc=["FuzzyHashData::to_string", "From<FuzzyHashData> for String", "Display::fmt"],
+      assumptions=[ASSUME_SYM, "object valid (spec_valid)"])
+
+PROP_META["C04"] = {
+    "technique": "Kani/CBMC BMC of the parser kernels and of the from_bytes drivers of all six types on fully "
+                 "symbolic byte strings (bounded length) against an independent grammar model",
+    "assumptions": ["reference model spec_grammar (harness/spec/grammar.rs)"],
+}
+K("c04_block_size_field", "C04", M_ALG, cap=(420, 900), cost=40, unwindset=alg_rules(n_text=15), shape="BMC",
+  bound="block size field: every byte string of <= 13 bytes",
+  outside="digit strings longer than 13 (all are 'too large')",
+  enc=["parse_block_size_from_bytes", "block_size::is_valid"])
+for (nm, N, T, norm, tiers, cap, cost) in [
+        ("c04_bh32_t12_raw", 32, 12, False, ("quick",), (420, 0), 30),
+        ("c04_bh32_t12_norm", 32, 12, True, ("quick",), (420, 0), 60),
+        ("c04_bh32_t40_raw", 32, 40, False, ("quick", "thorough"), (480, 1200), 60),
+        ("c04_bh32_t40_norm", 32, 40, True, ("thorough",), (0, 2400), 400),
+        ("c04_bh64_t16_raw", 64, 16, False, ("quick",), (420, 0), 40),
+        ("c04_bh64_t16_norm", 64, 16, True, ("quick",), (420, 0), 80),
+        ("c04_bh64_t72_raw", 64, 72, False, ("thorough",), (0, 1800), 200),
+        ("c04_bh64_t40_norm", 64, 40, True, ("thorough",), (0, 2400), 600)]:
+    K(nm, "C04", M_ALG, tiers=tiers, cap=cap, cost=cost, mem=12, unwindset=alg_rules(n_text=T + 2), shape="BMC",
+      bound="block hash field kernel ::<%d>, %s, every byte string of <= %d bytes"
+            % (N, "collapsing" if norm else "plain", T),
+      enc=["parse_block_hash_from_bytes::<_,%d>" % N, "base64::base64_index"])
+K("c04_bh64_t72_norm", "C04", M_ALG, tiers=("thorough",), cap=(0, 3000), cost=3000, mem=14,
+  unwindset=alg_rules(n_text=74), ladder="c04_bh64_norm_big", rung=72, shape="BMC",
+  bound="block hash field kernel ::<64>, collapsing, every byte string of <= 72 bytes",
+  enc=["parse_block_hash_from_bytes::<_,64>"])
+for (S, s1, s2, norm) in [("short_norm", 64, 32, True), ("short_raw", 64, 32, False),
+                          ("long_norm", 64, 64, True), ("long_raw", 64, 64, False)]:
+    K("c04_driver_%s_t10" % S, "C04", M_HASH, tiers=("quick",), cap=(480, 0), cost=200, mem=12,
+      unwindset=alg_rules(n_text=12, n_verify=12), shape="BMC",
+      bound="from_bytes_with_last_index of FuzzyHashData<%d,%d,%s>: every byte string of <= 10 bytes" % (s1, s2, norm),
+      enc=["FuzzyHashData::from_bytes_with_last_index", "from_bytes", "hash_from_bytes_with_last_index_internal_template",
+           "parse_block_size_from_bytes", "parse_block_hash_from_bytes", "block_size::log_from_valid_internal"])
+    K("c04_driver_%s_t16" % S, "C04", M_HASH, tiers=("thorough",), cap=(0, 2400), cost=900, mem=12,
+      unwindset=alg_rules(n_text=18, n_verify=18), shape="BMC",
+      bound="from_bytes_with_last_index of FuzzyHashData<%d,%d,%s>: every byte string of <= 16 bytes" % (s1, s2, norm),
+      outside="texts > 16 bytes that are not of the capacity-class shape",
+      enc=["FuzzyHashData::from_bytes_with_last_index", "from_bytes"])
+for S in ("short_norm", "short_raw"):
+    K("c04_capacity_bh2_%s_t40" % S, "C04", M_HASH, tiers=("thorough",), cap=(0, 2400), cost=900, mem=12,
+      unwindset=alg_rules(n_text=42, n_verify=42), shape="BMC",
+      bound="capacity class: '3::' + every byte string of <= 37 bytes (block hash 2 of the short type reaches and "
+            "exceeds 32 symbols, raw and collapsed)",
+      enc=["FuzzyHashData::from_bytes_with_last_index"])
